@@ -109,6 +109,13 @@ fn families() -> Vec<Family> {
             len_thorough: 7,
         },
         Family {
+            name: "o-names-ending-in-a-digit(p2 unary, c0 constant) continued by Greek letters, underscore, digits",
+            table: Table::new(vec![OpDesc::un("p2"), OpDesc::cst("c0", 77), OpDesc::bin_un("+", 0, true)]),
+            chars: vec!["p", "2", "c", "0", "α", "Ω", "_", "x", " ", "+"],
+            len_quick: 6,
+            len_thorough: 7,
+        },
+        Family {
             name: "h-greek(σ unary, π constant)",
             table: Table::new(vec![OpDesc::un("σ"), OpDesc::cst("π", 31), OpDesc::bin_un("+", 0, true), OpDesc::un("σσ")]),
             chars: vec!["π", "σ", "α", "Ω", "a", "2", " ", "+", "_"],
